@@ -2,7 +2,7 @@
 # tools/intake_seeded.sh <worktree-prop e.g. C07> <seeded-id e.g. C07-a> : verify an agent's change in its scratch worktree and file it
 set -e
 P=$1; ID=$2
-W=/tmp/mut/$P
+W=${MUTBASE:-/tmp/mut}/$P
 cd $W
 test -f _mutation/patch.diff
 git checkout -q -- smpl_extract 2>/dev/null || true
